@@ -338,8 +338,41 @@ class Check:
     def count(self, key, n=1):
         self.stats[key] = self.stats.get(key, 0) + n
 
+    def _watchdog(self, limit):
+        """a check that does not finish (e.g. the implementation dead-locks under a change) is reported, not hung:
+        the property is no longer shown to hold"""
+        import threading
+
+        def fire():
+            try:
+                v = Violation('watchdog:%s' % self.pid,
+                              'the check did not finish within %d s (implementation or model blocked)' % limit,
+                              kind='obligation', no_input=True, broken=['watchdog: check run did not terminate'])
+                path = self.write_replay(v, [])
+                print('VIOLATION property=%s replay=%s no-failing-input-found' % (self.pid, path), flush=True)
+                ev = {'property_id': self.pid, 'tier': self.tier, 'seed': self.seed, 'level': 'proof',
+                      'coverage': {'obligations': 1, 'discharged': 0, 'checker_cmd': 'watchdog',
+                                   'trusted_base': TRUSTED_BASE, 'evaluations': 0, 'distinct_nontrivial': 0,
+                                   'rule': self.rule, 'samples': [], 'notes': ['check run did not terminate']},
+                      'wall_s': limit, 'violations': 1}
+                with open(os.path.join(VERIF, 'evidence', self.pid + '.json'), 'w') as f:
+                    json.dump(ev, f, indent=1)
+            finally:
+                os._exit(1)
+        t = threading.Timer(limit, fire)
+        t.daemon = True
+        t.start()
+        return t
+
     def run(self):
         t0 = time.time()
+        wd = self._watchdog(int(os.environ.get('VERIF_WATCHDOG', '1500' if self.tier == 'quick' else '14000')))
+        try:
+            return self._run(t0)
+        finally:
+            wd.cancel()
+
+    def _run(self, t0):
         os.makedirs(os.path.join(WORK, self.pid), exist_ok=True)
         obligations = []
         assumptions_seen = []
